@@ -461,6 +461,13 @@ def h_mut_pos(op, n, m):
             if not r.ok:
                 return K.fail('slice assignment raised', exc=r.excname)
             exp_pos = pos if len(s) == n else 0
+        elif op == 'replace-str':
+            # operands given as text in different bases (and as bytes): the lengths that matter are their lengths in bits
+            old_t, new_t = K.choice('texts', [('0xf', '0b1'), ('0x3', '0b1100'), ('0b0000', '0x0'), ('0o7', '0b111'), ('0b11', '0x3'), (b'\xff', '0b1'), ('0xff', b'\x00')])
+            r = call(lambda: s.replace(old_t, new_t))
+            if not r.ok:
+                return K.fail('replace raised', exc=r.excname)
+            exp_pos = pos if len(s) == n else 0
         elif op == 'replace':
             old = K.bits('old', 1)
             r = call(lambda: s.replace(mk(K, bitstring.Bits, old), other))
@@ -648,8 +655,8 @@ def conditions(tier):
         for n in ([0, 4] if q else [0, 1, 4, 9]):
             add(f'C06.new-objects[{c},n={n}]', h_new_objects(c, n), f'all {n}-bit contents x all positions; copy, slice, operators, cut, split', D_NEW, n=n, cls=c)
             add(f'C06.pos-irrelevant[{c},n={n}]', h_pos_irrelevant(c, n), f'all {n}-bit contents x all pairs of positions; 17 non-stream operations', D_NEW, n=n, cls=c)
-    for op in ['append', 'iadd', 'prepend', 'clear', 'insert', 'overwrite', 'delslice', 'delitem', 'setslice', 'replace', 'setitem', 'setslice-step', 'imul']:
-        for (n, m) in ([(0, 2), (5, 2), (5, 0)] if q else [(0, 2), (5, 2), (5, 0), (8, 3), (1, 1)]):
+    for op in ['append', 'iadd', 'prepend', 'clear', 'insert', 'overwrite', 'delslice', 'delitem', 'setslice', 'replace', 'replace-str', 'setitem', 'setslice-step', 'imul']:
+        for (n, m) in (([(5, 0), (9, 0)] if op == 'replace-str' else [(0, 2), (5, 2), (5, 0)]) if q else [(0, 2), (5, 2), (5, 0), (8, 3), (1, 1), (9, 0)]):
             add(f'C06.pos-after-{op}[BitStream,n={n},m={m}]', h_mut_pos(op, n, m), f'all contents ({n}+{m} bits) x all positions x every int argument', D_MUT, n=n, m=m)
     for op in ['append', 'overwrite']:
         for (n, m) in [(4, 2), (0, 1)]:
